@@ -261,7 +261,7 @@ example : TP.TPClockOk 2147483648 (exampleTpNode .t32 (M32 - 40)) ∧ (exampleTp
 is ready for its first product-information request exactly 1000 ms later, and so is the same entry in the run whose
 clock is 2^31+5000 ms ahead (`Device.shift` leaves the never-used stamp at 0); one millisecond earlier neither is -/
 example :
-    let e0 : DeviceList.Env := { now := 1000, canSend := true, junkTime := 0, junkMem := fun _ => 0 }
+    let e0 : DeviceList.Env := { now := 1000, canSend := true, junkMem := fun _ => 0 }
     let d := DeviceList.Device.new e0 7
     let k := 2147483648 + 5000
     (d.shift k).createTime = 2147483648 + 6000 ∧ (d.shift k).prodIRequested = 0 ∧
